@@ -27,7 +27,7 @@ From Emmet Require Import lib.Base lib.StrLit model.MarkupTokenizer model.Markup
      model.MarkupResolve model.OutStream model.FormatHtml model.FormatIndent model.MarkupExpand
      gen.GenMarkupSnippets
      proofs.ParserSpine proofs.TokenizeRender proofs.ConvertProofs proofs.HtmlEvents
-     proofs.ExpandTree proofs.ExpandFlat proofs.ExpandRepeat.
+     proofs.ExpandTree proofs.ExpandFlat proofs.ExpandRepeat proofs.ExpandGroupsTok proofs.ExpandGroups.
 
 Theorem C01_expand_tree_flat :
   forall (x : xconfig) (xs : list (str * sop)),
@@ -53,6 +53,26 @@ Theorem C01_expand_tree_repeat :
       nestT 0 (tags st) = map (fun p => (fst p, tag_name (xc_o x) (snd p))) (unrollS xs).
 Proof. exact expand_tree_rep. Qed.
 Print Assumptions C01_expand_tree_repeat.
+
+(* the same with parenthesised groups, nested to any depth, and `*N` on elements and groups.
+   Syntax [sstmt]: a unit is a letter name or `( statement )`, each optionally followed by `*` and
+   a digit run; units are separated by `>`, `+` and runs of `^` ([render3]).
+   Spec [unrollS3 xs] = [unrollM (smarks 0 0 xs)].  [smarks] is the depth-counter mark list of the
+   text: an element with its depth and number of copies; a bracket pair around a group's contents
+   (written at the group's own depth, `^` stops at the top of the group), the group's number of
+   copies on the closing one; a group is one unit for what follows it.  [unrollM]: an element
+   stands for k consecutive copies of itself followed by everything written deeper right after
+   it; a bracket pair stands for k consecutive copies of its contents.
+   Domain [grp_ok]: as [flat_ok]; digit runs; `>` never directly after a group (documented
+   grammar); element copies + group copies of the unrolled statement within the repeat budget. *)
+Theorem C01_expand_tree_groups :
+  forall (x : xconfig) (xs : sstmt),
+    grp_ok x xs = true ->
+    exists st,
+      expand_markup x (render3 xs) = Ok st /\
+      nestT 0 (tags st) = map (fun p => (fst p, tag_name (xc_o x) (snd p))) (unrollS3 xs).
+Proof. exact expand_tree_groups. Qed.
+Print Assumptions C01_expand_tree_groups.
 
 (* the tree level it rests on, for token trees with `*N` and groups as well: whenever the text
    tokenizes and parses to a tree of bare fine names (written repeaters only) whose copy count
@@ -115,4 +135,30 @@ Example C01_expand_repeat_nonvacuous :
              os_value (fs_out st) = S "<x><foo><zz></zz></foo><foo><zz></zz></foo><foo><zz></zz></foo><bar></bar><bar></bar></x>"
   | _ => False
   end.
+Proof. vm_compute. repeat split; reflexivity. Qed.
+
+(* non-vacuity of the group theorem: "x>(foo>zz*2+bar^^^qux)*2+baz" -- the `^^^` stops at the top of the group *)
+Definition ex_gs : sstmt :=
+  [(UE (S "x") None, SChild);
+   (UG [(UE (S "foo") None, SChild); (UE (S "zz") (Some (S "2")), SSibling); (UE (S "bar") None, SClimb 2);
+        (UE (S "qux") None, SSibling)] (Some (S "2")), SSibling);
+   (UE (S "baz") None, SSibling)].
+Example C01_expand_groups_nonvacuous :
+  grp_ok (mkX ex_m (ex_o true "html")) ex_gs = true /\
+  grp_ok (mkX ex_m (ex_o false "xhtml")) ex_gs = true /\
+  render3 ex_gs = S "x>(foo>zz*2+bar^^^qux)*2+baz" /\
+  smarks 0 0 ex_gs = [SE 0 (S "x") 1; SO 1; SE 1 (S "foo") 1; SE 2 (S "zz") 2; SE 2 (S "bar") 1; SE 1 (S "qux") 1; SC 1 2;
+                      SE 1 (S "baz") 1] /\
+  unrollS3 ex_gs = [(0, S "x");
+                    (1, S "foo"); (2, S "zz"); (2, S "zz"); (2, S "bar"); (1, S "qux");
+                    (1, S "foo"); (2, S "zz"); (2, S "zz"); (2, S "bar"); (1, S "qux");
+                    (1, S "baz")] /\
+  match expand_markup (mkX ex_m (ex_o false "xhtml")) (render3 ex_gs) with
+  | Ok st => nestT 0 (tags st) = unrollS3 ex_gs /\
+             os_value (fs_out st) =
+               S "<x><foo><zz></zz><zz></zz><bar></bar></foo><qux></qux><foo><zz></zz><zz></zz><bar></bar></foo><qux></qux><baz></baz></x>"
+  | _ => False
+  end /\
+  (* `>` directly after a group is outside the domain *)
+  grp_ok (mkX ex_m (ex_o true "html")) [(UG [(UE (S "x") None, SSibling)] None, SChild); (UE (S "zz") None, SSibling)] = false.
 Proof. vm_compute. repeat split; reflexivity. Qed.
